@@ -559,7 +559,10 @@ func (e *verifC19Env) startup(text string, runIngest bool) (st *verifC19Station,
 				return nil, "rejected:ingest-returned", nil
 			default:
 			}
-			if rm.ingestChan != nil || time.Now().After(deadline) {
+			rm.ingestChanMu.RLock()
+			started := rm.ingestChan != nil
+			rm.ingestChanMu.RUnlock()
+			if started || time.Now().After(deadline) {
 				break
 			}
 			time.Sleep(20 * time.Microsecond)
@@ -1141,11 +1144,10 @@ func (e *verifC19Env) reload(st *verifC19Station, step kit.C19Reload, idx int) b
 
 // ---- the test ----------------------------------------------------------------------------------------------
 
-func TestVerifC19Config(t *testing.T) {
-	rec := kit.NewRec("C19", "config")
-	defer rec.Close()
+// verifC19NewEnv prepares the files and the scripted resolver shared by the C19 tests of this package.
+func verifC19NewEnv(t *testing.T, rec *kit.Rec, dirName string) *verifC19Env {
 	e := &verifC19Env{t: t, rec: rec, subCache: map[string]verifC19Fresh{}}
-	e.dir = filepath.Join(kit.OutDir(), "c19-files")
+	e.dir = filepath.Join(kit.OutDir(), dirName)
 	if err := os.MkdirAll(e.dir, 0o755); err != nil {
 		t.Fatal(err)
 	}
@@ -1184,6 +1186,13 @@ func TestVerifC19Config(t *testing.T) {
 	if out, _ := (&RegConfig{}).ParseOrResolveBlocklisted("fine.example.net:443"); out != "198.51.100.7:443" {
 		t.Fatalf("scripted resolver does not work: fine.example.net:443 -> %q", out)
 	}
+	return e
+}
+
+func TestVerifC19Config(t *testing.T) {
+	rec := kit.NewRec("C19", "config")
+	defer rec.Close()
+	e := verifC19NewEnv(t, rec, "c19-files")
 	defer log.SetLevel(log.ErrorLevel)
 
 	nCases := kit.Tier(1500, 60000)
